@@ -209,7 +209,8 @@ type qsim struct {
 	bif        int64
 	nOut       int // "outstanding": ack-eliciting, not an MTU probe
 	nTracked   int
-	nTrackedBeforeEvent int // packets tracked when the most recent ACK / loss-timer processing began
+	nTrackedBeforeEvent int // packets tracked when the processing that led to the latest OnCongestionEventEx began
+	trackedPre          int
 	largestAck int64
 	largestAckSent int64
 	lossTime   int64
@@ -614,6 +615,7 @@ func (s *qsim) detectLost() {
 }
 
 func (s *qsim) eventEx(prior int64, acked []congestion.AckedPacketInfo, lost []congestion.LostPacketInfo) {
+	s.nTrackedBeforeEvent = s.trackedPre
 	s.cc.OnCongestionEventEx(congestion.ByteCount(prior), s.mt(s.now), acked, lost)
 	s.evSinceAsk++
 	s.hooks.onEventEx(s.now, len(acked), len(lost))
@@ -642,7 +644,7 @@ func (s *qsim) receivedAck(upto int, ackDelay int64) {
 		return
 	}
 	prior := s.bif
-	s.nTrackedBeforeEvent = s.nTracked
+	s.trackedPre = s.nTracked
 	pk := make([]*spkt, len(newly))
 	for i, pn := range newly {
 		pk[i] = s.get(pn)
@@ -712,7 +714,7 @@ func (s *qsim) setAlarm() {
 func (s *qsim) onLossDetectionTimeout() {
 	defer s.setAlarm()
 	prior := s.bif
-	s.nTrackedBeforeEvent = s.nTracked
+	s.trackedPre = s.nTracked
 	if s.lossTime != 0 {
 		s.detectLost()
 		s.dbg("loss timer: %d lost", len(s.lostInfo))
@@ -1309,17 +1311,27 @@ func execC11(x *hysim.Run) {
 	limit := int64((20*left/eff + 400*rttMax + 200) * 1e9)
 	tEnd := s.now + limit
 	probeStall := false
+	// FINDING (reproduced against real quic-go, see realcode_mtu_probe_stall_test.go.txt): a lost path-MTU probe
+	// larger than the one-datagram window floor blocks the sender for good (until the idle timeout kills the
+	// connection, or for ever if the peer keeps sending).
+	stalledByProbe := func() bool {
+		if !(s.pending > 0 && s.mtuInFlight >= 0 && s.nOut == 0 && s.bif == s.mtuSize && !b.CanSend(congestion.ByteCount(s.bif))) {
+			return false
+		}
+		probeStall = true
+		x.Ev("STALL: lost MTU probe of %d bytes is the only packet in flight, window %d, CanSend=false, no PTO is armed for MTU probes", s.mtuSize, b.GetCongestionWindow())
+		if sc.Get("report_probe_stall", 0) == 1 {
+			x.Violate("mtu-probe-stall", "data to send (%d bytes) but the sender is blocked for good: the only packet in flight is a lost path-MTU probe of %d bytes, the window is at its floor of one datagram (%d, srtt %v, rate %d B/s), CanSend(%d) is false, and QUIC arms no PTO for MTU probes", s.pending, s.mtuSize, b.GetCongestionWindow(), rtt.smoothed, bps, s.bif)
+		}
+		return true
+	}
+	if s.closed {
+		stalledByProbe()
+	}
 	s.runUntil(s.now) // the pass triggered by scheduleSending()
 	for !s.done() && s.now < tEnd && !x.Violated() && !s.exhausted && !s.closed {
 		if len(s.q.h) == 0 && s.wakeAt == 0 && !s.sched {
-			if s.mtuInFlight >= 0 && s.nOut == 0 && s.bif == s.mtuSize && !b.CanSend(congestion.ByteCount(s.bif)) {
-				// FINDING (reproduced against real quic-go, see realcode_mtu_probe_stall_test.go.txt):
-				// a lost path-MTU probe larger than the one-datagram window floor blocks the sender for good.
-				probeStall = true
-				x.Ev("STALL: lost MTU probe of %d bytes is the only packet in flight, window %d, CanSend=false, no PTO is armed for MTU probes", s.mtuSize, b.GetCongestionWindow())
-				if sc.Get("report_probe_stall", 0) == 1 {
-					x.Violate("mtu-probe-stall", "data to send (%d bytes) but the sender is blocked for good: the only packet in flight is a lost path-MTU probe of %d bytes, the window is at its floor of one datagram (%d, srtt %v, rate %d B/s), CanSend(%d) is false, and QUIC arms no PTO for MTU probes", s.pending, s.mtuSize, b.GetCongestionWindow(), rtt.smoothed, bps, s.bif)
-				}
+			if stalledByProbe() {
 				break
 			}
 			x.Violate("sender-deadlock", "data to send (%d bytes pending, %d in flight, %d tracked packets) but nothing in flight on the path, no pacing timer and no loss/PTO alarm: cwnd=%d CanSend=%v datagram=%d", s.pending, s.bif, s.nTracked, b.GetCongestionWindow(), b.CanSend(congestion.ByteCount(s.bif)), s.dgram)
@@ -1334,6 +1346,9 @@ func execC11(x *hysim.Run) {
 		}
 		s.runUntil(max(nxt, s.now))
 	}
+	if s.closed && !probeStall {
+		stalledByProbe()
+	}
 	sync()
 	x.Ev("end sent=%d delivered=%d app=%d pending=%d bif=%d elapsed=%.3fs", s.pktsSent, s.delivered, appBytes, s.pending, s.bif, float64(s.now-t0)/1e9)
 	if x.Violated() {
@@ -1343,12 +1358,12 @@ func execC11(x *hysim.Run) {
 		x.Probe("packet-budget-exhausted")
 		return
 	}
-	if s.closed {
-		return
-	}
 	if probeStall {
 		x.Probe("FINDING-mtu-probe-stall")
 		x.NonTrivial()
+		return
+	}
+	if s.closed {
 		return
 	}
 	if !s.done() {
